@@ -64,9 +64,13 @@ impl<T: Send> BoundedSyncSender<T> {
   }
 
   pub fn to_async(self) -> BoundedAsyncSender<T> {
+    // Carry the handle's own closed flag over: a converted handle must stay closed.
+    let closed = self.closed.load(Ordering::Relaxed);
     let shared = unsafe { std::ptr::read(&self.shared) };
     mem::forget(self);
-    BoundedAsyncSender::from_shared(shared)
+    let converted = BoundedAsyncSender::from_shared(shared);
+    converted.closed.store(closed, Ordering::Relaxed);
+    converted
   }
 
   pub fn try_send(&self, item: T) -> Result<(), TrySendError<T>> {
@@ -373,9 +377,13 @@ impl<T: Send> BoundedSyncReceiver<T> {
   }
 
   pub fn to_async(self) -> BoundedAsyncReceiver<T> {
+    // Carry the handle's own closed flag over: a converted handle must stay closed.
+    let closed = self.closed.load(Ordering::Relaxed);
     let shared = unsafe { std::ptr::read(&self.shared) };
     mem::forget(self);
-    BoundedAsyncReceiver::from_shared(shared)
+    let converted = BoundedAsyncReceiver::from_shared(shared);
+    converted.closed.store(closed, Ordering::Relaxed);
+    converted
   }
 
   pub fn try_recv(&self) -> Result<T, TryRecvError> {
